@@ -88,7 +88,8 @@ func sharesRoot(a, b map[ssa.Value]bool) bool {
 
 func runC15(c *Ctx) {
 	p := c.Progs["mod"]
-	c.Rule("C15.E", "hex/text codec agreement and buffer discipline of WebsocketNetConn", 9)
+	c.Rule("C15.E", "hex/text codec agreement and buffer discipline of WebsocketNetConn; sockets are closed orderly (= C16.A)", 10)
+	ruleNoAbortiveLinger(c, p, "C15.E")
 	c.Rule("C15.P", "two copy directions over the same pair, WaitGroup pairing", 4)
 	c.Rule("C15.H", "pass-through identity and streaming-path agreement", 6)
 	T := "(*" + bridgeConn + ".WebsocketNetConn)"
@@ -157,7 +158,8 @@ func runC15(c *Ctx) {
 				}
 				// dst itself when it was made with exactly the decoded size of this source:
 				// make([]byte, hex.DecodedLen(len(src))) — a successful Decode fills all of it
-				if dst := PArgs(CallOf(dec))[0]; SameValue(v, dst) {
+				if _, isSl := v.(*ssa.Slice); !isSl && SameValue(v, PArgs(CallOf(dec))[0]) {
+					dst := PArgs(CallOf(dec))[0]
 					if mk, isMk := dst.(*ssa.MakeSlice); isMk {
 						if dl := CallResult(mk.Len, 0, "encoding/hex.DecodedLen"); dl != nil {
 							if ln, isC := PArgs(dl.Common())[0].(*ssa.Call); isC {
@@ -590,28 +592,7 @@ func postDominatesReturn(fn *ssa.Function, i ssa.Instruction) bool {
 // while it is blocked in network I/O (the Close that should unblock the
 // pending Read would wait for that very Read).
 func c16Orderly(c *Ctx, p *Prog) {
-	pkgs := []string{"utils/tcpbridge/connection", "utils/tcpbridge/tcp-bridge-frontend", "utils/tcpbridge/tcp-bridge-backend"}
-	ncalls := 0
-	var linger []ssa.Instruction
-	for _, pk := range pkgs {
-		for _, fn := range p.FuncsIn(pk) {
-			EachInstr(fn, func(i ssa.Instruction) {
-				cc := CallOf(i)
-				if cc == nil {
-					return
-				}
-				ncalls++
-				n := CalleeName(cc)
-				if strings.HasSuffix(n, ").SetLinger") {
-					a := Args(cc)
-					if v, ok := ConstInt(a[len(a)-1]); !(ok && v < 0) {
-						linger = append(linger, i)
-					}
-				}
-			})
-		}
-	}
-	c.Check("C16.A", "close:no-abortive-linger", p, posOf(linger), len(linger) == 0 && ncalls > 30, fmt.Sprintf("%d call sites of the bridge inspected: SO_LINGER is left at its default, so Close() sends queued data followed by FIN", ncalls), "SetLinger with a non-negative timeout at "+posStr(p, firstOf(linger))+": Close() on that connection discards data still queued in the kernel and resets the peer, so bytes sent just before the other side closed never arrive and the peer sees ECONNRESET instead of end-of-stream")
+	ruleNoAbortiveLinger(c, p, "C16.A")
 	// net.Conn wrappers
 	ls := ComputeLocksets(p)
 	nw := 0
@@ -723,4 +704,31 @@ func inClosureTree(fn, inner *ssa.Function) bool {
 		}
 	}
 	return false
+}
+
+// ruleNoAbortiveLinger: no bridge code arms SO_LINGER >= 0. Close() on such a
+// socket discards what is still queued in the kernel and resets the peer.
+func ruleNoAbortiveLinger(c *Ctx, p *Prog, rule string) {
+	pkgs := []string{"utils/tcpbridge/connection", "utils/tcpbridge/tcp-bridge-frontend", "utils/tcpbridge/tcp-bridge-backend"}
+	ncalls := 0
+	var linger []ssa.Instruction
+	for _, pk := range pkgs {
+		for _, fn := range p.FuncsIn(pk) {
+			EachInstr(fn, func(i ssa.Instruction) {
+				cc := CallOf(i)
+				if cc == nil {
+					return
+				}
+				ncalls++
+				n := CalleeName(cc)
+				if strings.HasSuffix(n, ").SetLinger") {
+					a := Args(cc)
+					if v, ok := ConstInt(a[len(a)-1]); !(ok && v < 0) {
+						linger = append(linger, i)
+					}
+				}
+			})
+		}
+	}
+	c.Check(rule, "close:no-abortive-linger", p, posOf(linger), len(linger) == 0 && ncalls > 30, fmt.Sprintf("%d call sites of the bridge inspected: SO_LINGER is left at its default, so Close() sends queued data followed by FIN", ncalls), "SetLinger with a non-negative timeout at "+posStr(p, firstOf(linger))+": Close() on that connection discards data still queued in the kernel and resets the peer, so bytes sent just before the other side closed never arrive and the peer sees ECONNRESET instead of end-of-stream")
 }
